@@ -63,7 +63,7 @@ func checkC09(sc *Scenario, t *Truth) []Violation {
 				ok = (t.explicitStartCovering(rep, prevSeq-1, tr.Seq) || t.startRequestedBetween(rep, lastStart, tr.Seq)) && (tr.State == "Running" || tr.State == "Launching" || tr.State == "Pending" || tr.State == "Error" || tr.State == "Skipped" || tr.State == "Terminating" || tr.State == "Completed")
 			} else {
 				ok = contains(legalNext[prev], tr.State)
-				if !ok && (tr.State == "Running" || tr.State == "Launching") && t.startRequestedBetween(rep, lastStart, tr.Seq) {
+				if !ok && (tr.State == "Running" || tr.State == "Launching" || tr.State == "Pending") && t.startRequestedBetween(rep, lastStart, tr.Seq) {
 					ok = true // a new instance launched on an explicit (re)start request
 				}
 			}
